@@ -17,7 +17,7 @@ import Mathlib.Algebra.Order.Field.Basic
 
 open Finset BigOperators Matrix
 
-namespace GT
+namespace GT.Diag
 
 variable {K : Type*} [Field K] [LinearOrder K] {n : ℕ}
 
@@ -85,4 +85,4 @@ noncomputable def sphereCenterT {d : ℕ} (pts : Fin (d + 1) → Fin d → K) : 
 noncomputable def sphereThrough {d : ℕ} (r : K → K) (pts : Fin (d + 1) → Fin d → K) : (Fin d → K) × K :=
   (sphereCenterT pts + pts 0, r (nsq (sphereCenterT pts)))
 
-end GT
+end GT.Diag
